@@ -2,6 +2,8 @@
 the real insertion evaluation vs. the model Model/Limits.v, and the property (accepted => the really applied tour is within
 every limit for an independent simulation) evaluated on the implementation's own output.
 Registered by `SUBSTREAMS = [..., 'c06_limits']` in tools/props/c06.py; theorems are in Properties/C06.v and Properties/C01.v."""
+import json
+import os
 from coqterm import z, zlist, lst, nat, opt
 from props import corelib as K
 from props.corelib import tz, INF
@@ -12,7 +14,7 @@ COQ_IMPORTS = 'From VRP Require Import Base.Tac Model.Core Spec.Feasible Spec.Fe
 MODEL_TARGETS = ['theories/Model/Limits.vo']
 SHARD = 40
 SIZES = {'quick': 420, 'thorough': 9000, 'search': 4000}
-RULE = ('cases (4 modes). eval (~78%): random worlds (3-6 locations, metric / non-metric asymmetric integer matrices, duplicated '
+RULE = ('cases (5 modes). eval (~75%): random worlds (3-6 locations, metric / non-metric asymmetric integer matrices, duplicated '
         'locations = zero-length legs, open / closed tours, end location != start, finite / unbounded shift ends), tours of 0-5 '
         'activities (half of them waiting-heavy: windows opening after the arrival, so that later waiting absorbs a delay), a single '
         'job (1-2 places x 1-3 windows) at position Any / Concrete i / Last; vehicle with / without each of maxDistance, maxDuration, '
@@ -25,14 +27,19 @@ RULE = ('cases (4 modes). eval (~78%): random worlds (3-6 locations, metric / no
         'alternative is evaluated through the whole real goal, through the travel-limit constraint alone (with and without cached '
         'tour state) and the locking constraint alone. skills (~10%): route-level verdict, merge rule, JobSkills::new on random '
         'sets incl. empty ones. lockrule (~7%): one strict rule against every kind of (job, prev, next). size (~5%): '
-        'ActivityLimitConstraint for Single jobs and Multi jobs with 2-4 sub-jobs. non-trivial = distinct eval cases with a tour activity and '
+        'ActivityLimitConstraint for Single jobs and Multi jobs with 2-4 sub-jobs. e2e (~3%, no model trace): pragmatic problems with '
+        'vicinity clustering - 2-4 single-delivery jobs a few units apart with random allOf / oneOf / noneOf lists, 1-2 vehicle types '
+        'with random skills - read, solved (10 generations) and written by the real code; the oracle looks up the skills of every '
+        'served job (regression for C01-F10, also corpus/C01/extra/skills_one_of_clustered.json). non-trivial = distinct eval cases with a tour activity and '
         'a limit / skill / lock present, and every distinct case of the other modes.')
 TRUSTED = ['c06_limits: the Python extended simulation (time windows, load, distance = sum of legs, duration = end of the last '
            'activity - departure, number of job activities, skills, strict-lock blocks) in tools/props/c06_limits.py, cross-checked '
            'against the Coq `feasible_x_parts` on the tour, on every alternative and on the applied tour of every case',
            'c06_limits: the limit / skill / lock configuration is installed through closures and dimensions by harness/src/bin/c06_limits.rs '
            '(goal_reader.rs::get_tour_limit_feature and the pragmatic fleet/job readers are not in the loop); one vehicle, '
-           'time-independent routing, SimpleActivityCost, no reload intervals, no breaks']
+           'time-independent routing, SimpleActivityCost, no reload intervals, no breaks',
+           'c06_limits, mode e2e: the Python lookup of job / vehicle skills in the problem document and of the served jobs in the '
+           'solution document (no Coq model behind this mode)']
 ASSUMPTIONS = ['integer-valued data below 2^40: every f64 operation of the evaluator is exact',
                'skills are compared as sets of ids (the code uses HashSet<String>; only membership is observable)']
 
@@ -288,8 +295,23 @@ def gen_eval(rng):
 
 def gen_skills(rng):
     vs = gen_skillset(rng)
-    return {'mode': 'skills', 'vskills': vs, 'js': gen_jskills(rng) if rng.chance(1, 3) else gen_jskills_for(rng, vs),
-            'cand': gen_jskills(rng), 'raw': [gen_skillset(rng), gen_skillset(rng), gen_skillset(rng)]}
+    js = gen_jskills(rng) if rng.chance(1, 3) else gen_jskills_for(rng, vs)
+    cand = gen_jskills(rng)
+    if js and rng.chance(2, 3):
+        # a candidate related to the source: every part absent, equal, a subset or a superset (the cases the merge rule separates)
+        def related(x):
+            k = rng.below(5)
+            if k == 0:
+                return None
+            if x is None:
+                return gen_skillset(rng) if k == 1 else None
+            if k == 1:
+                return list(x)
+            if k == 2:
+                return sorted(x)[:max(0, len(x) - 1)] if rng.chance(1, 4) else (sorted(x)[:max(1, len(x) - 1)] or None)
+            return sorted(set(list(x) + [rng.choice(SKILLS)]))
+        cand = {'all': related(js.get('all')), 'one': related(js.get('one')), 'none': related(js.get('none'))}
+    return {'mode': 'skills', 'vskills': vs, 'js': js, 'cand': cand, 'raw': [gen_skillset(rng), gen_skillset(rng), gen_skillset(rng)]}
 
 
 def gen_lockrule(rng):
@@ -313,11 +335,71 @@ def gen_size(rng):
     return c
 
 
+LETTERS = ['a', 'b', 'c']
+
+
+def gen_e2e(rng):
+    """a tiny pragmatic problem with vicinity clustering: jobs close to each other, random skills"""
+    nj = rng.range(2, 4)
+    n = nj + 1
+    pts = [(0, 0)] + [(40 + rng.range(0, 6), 40 + rng.range(0, 6)) for _ in range(nj)]
+    m = [abs(pts[i][0] - pts[j][0]) + abs(pts[i][1] - pts[j][1]) for i in range(n) for j in range(n)]
+
+    def subset(pool, lo=1):
+        xs = rng.shuffle(pool)[:rng.range(lo, max(lo, len(pool)))]
+        return sorted(set(xs))
+
+    # vehicles first; the jobs' lists are variations of one base list that the first vehicle mostly meets, so that merges happen
+    vehicles = []
+    for k in range(rng.range(1, 2)):
+        v = {'typeId': 'v%d' % k, 'vehicleIds': ['v%d_1' % k], 'profile': {'matrix': 'car'},
+             'costs': {'fixed': 0, 'distance': 1, 'time': 1},
+             'shifts': [{'start': {'earliest': '1970-01-01T00:00:00Z', 'location': {'index': 0}},
+                         'end': {'latest': '1970-01-01T10:00:00Z', 'location': {'index': 0}}}], 'capacity': [10]}
+        if not rng.chance(1, 6):
+            v['skills'] = subset(LETTERS)
+        vehicles.append(v)
+    vs = vehicles[0].get('skills') or []
+    others = [x for x in LETTERS if x not in vs]
+    base = subset(LETTERS)
+    ids = rng.shuffle(['A', 'B', 'C', 'D'])[:nj]
+    jobs = []
+    for i, jid in enumerate(ids):
+        sk = {}
+        k = rng.below(8)
+        if k < 2:
+            sk['oneOf'] = base
+        elif k < 4:
+            sk['oneOf'] = subset(base)
+        elif k < 6:
+            sk['oneOf'] = sorted(set(base + [rng.choice(LETTERS)]))
+        if vs and rng.chance(1, 4):
+            sk['allOf'] = subset(vs)
+        elif rng.chance(1, 10):
+            sk['allOf'] = subset(LETTERS)
+        if others and rng.chance(1, 4):
+            sk['noneOf'] = subset(others)
+        elif rng.chance(1, 10):
+            sk['noneOf'] = subset(LETTERS)
+        j = {'id': jid, 'deliveries': [{'places': [{'location': {'index': i + 1}, 'duration': 10,
+                                                     'times': [['1970-01-01T00:00:00Z', '1970-01-01T05:00:00Z']]}], 'demand': [1]}]}
+        if sk:
+            j['skills'] = sk
+        jobs.append(j)
+    problem = {'plan': {'jobs': jobs,
+                        'clustering': {'type': 'vicinity', 'profile': {'matrix': 'car'}, 'threshold': {'duration': 100, 'distance': 100},
+                                       'visiting': rng.choice(['continue', 'return']), 'serving': {'type': 'original', 'parking': 0}}},
+               'fleet': {'vehicles': vehicles, 'profiles': [{'name': 'car'}]}}
+    return {'mode': 'e2e', 'problem': problem, 'matrices': [{'profile': 'car', 'travelTimes': m, 'distances': m}], 'generations': 10}
+
+
 def generate(rng, tier, n):
     cases = []
     for _ in range(n):
         r = rng.below(100)
-        if r < 78:
+        if r < 3:
+            cases.append(gen_e2e(rng))
+        elif r < 78:
             cases.append(gen_eval(rng))
         elif r < 88:
             cases.append(gen_skills(rng))
@@ -346,10 +428,21 @@ def corpus():
     # an EMPTY oneOf set (only constructible field by field): rejected by a vehicle WITH skills, accepted by one WITHOUT
     s1 = {'mode': 'skills', 'vskills': [1, 2], 'js': {'all': None, 'one': [], 'none': None}, 'cand': None, 'raw': [[], [1], None]}
     s2 = {'mode': 'skills', 'vskills': None, 'js': {'all': None, 'one': [], 'none': None}, 'cand': None, 'raw': [None, None, []]}
-    # merge rule, oneOf: candidate {1} is a subset of source {1,2}: merged although a vehicle with skill 2 only serves the source
+    # merge rule, oneOf (finding C01-F10, repaired by /repo ee5718d): candidate {1} is a subset of source {1,2}; the old rule merged
+    # them although a vehicle with skill 2 only serves the source; the repaired rule refuses (regression: oracle class below)
     s3 = {'mode': 'skills', 'vskills': [2], 'js': {'all': None, 'one': [1, 2], 'none': None},
           'cand': {'all': None, 'one': [1], 'none': None}, 'raw': [None, None, None]}
-    return [c1, c2, c3, c4, c5, s1, s2, s3]
+    # the other direction is fine: source {1}, candidate {1,2}
+    s4 = {'mode': 'skills', 'vskills': [1], 'js': {'all': None, 'one': [1], 'none': None},
+          'cand': {'all': None, 'one': [1, 2], 'none': None}, 'raw': [None, None, None]}
+    out = [c1, c2, c3, c4, c5, s1, s2, s3, s4]
+    # C01-F10 end to end (vicinity clustering): the regression case of corpus/C01/extra, through the real reader / solver / writer
+    f = os.path.join(os.path.dirname(os.path.dirname(os.path.dirname(os.path.abspath(__file__)))), 'corpus', 'C01', 'extra',
+                     'skills_one_of_clustered.json')
+    if os.path.exists(f):
+        for c in json.load(open(f))['cases']:
+            out.append({'mode': 'e2e', 'problem': c['problem'], 'matrices': c['matrices'], 'generations': 20})
+    return out
 
 
 # ---------------------------------------------------------------- Gallina rendering
@@ -382,6 +475,8 @@ def g_oj(x):
 
 def model_term(c):
     mode = c.get('mode', 'eval')
+    if mode == 'e2e':
+        return None                  # no model behind this mode: the oracle judges the returned document
     if mode == 'skills':
         return 'run_skills %s %s %s (%s, %s, %s)' % (g_set(c['vskills']), g_js(c['js']), g_js(c['cand']),
                                                      g_set(c['raw'][0]), g_set(c['raw'][1]), g_set(c['raw'][2]))
@@ -418,6 +513,8 @@ def compare(c, impl, model):
     if 'panic' in impl:
         return 'implementation panicked: %s' % impl['panic']
     mode = c.get('mode', 'eval')
+    if mode == 'e2e':
+        return None
     if mode == 'skills':
         verdict, merged, fresh = model
         if opt_list(impl['verdict']) != list(verdict):
@@ -514,12 +611,45 @@ def exact_duration_case(c, t, idx, x):
     return dep_new >= sched[idx + 1][1] and all(sched[k][0] >= t[k]['tws'] for k in range(idx + 2, len(t)))
 
 
+def oracle_e2e(c, impl):
+    """every job a returned tour serves has its skills met by the tour's vehicle (looked up in the problem document)"""
+    if 'error' in impl:
+        return [{'class': 'e2e-error', 'what': impl['error']}]
+    jobs = {j['id']: j for j in c['problem']['plan']['jobs']}
+    vskills = {vid: vt.get('skills') for vt in c['problem']['fleet']['vehicles'] for vid in vt['vehicleIds']}
+    v = []
+    for t in impl['solution']['tours']:
+        vs = vskills.get(t['vehicleId'])
+        for st in t['stops']:
+            for a in st['activities']:
+                j = jobs.get(a['jobId'])
+                if j is None or not j.get('skills'):
+                    continue
+                sk = {'all': j['skills'].get('allOf'), 'one': j['skills'].get('oneOf'), 'none': j['skills'].get('noneOf')}
+                if not skills_sat(vs, sk):
+                    part = [k for k in ('all', 'one', 'none') if not skills_sat(vs, {k: sk[k]})]
+                    v.append({'class': 'returned-tour-serves-%s-job-with-unmet-skills-%s' % ('clustered' if 'commute' in a else 'plain', '+'.join(part)),
+                              'what': 'job %s (skills %s) is served by %s (skills %s)' % (a['jobId'], j['skills'], t['vehicleId'], vs)})
+    return v
+
+
 def oracle(c, impl):
     if 'panic' in impl:
         return [{'class': 'panic', 'what': 'evaluator panicked: ' + impl['panic']}]
     mode = c.get('mode', 'eval')
     v = []
+    if mode == 'e2e':
+        return oracle_e2e(c, impl)
     if mode == 'skills':
+        # the merge rule: the merged job keeps the SOURCE's skills, so every vehicle that meets the source's requirement must meet
+        # the candidate's (records without an EMPTY oneOf set, as JobSkills::new builds them)
+        if impl['merge'] == 1 and not (c['js'] and c['js'].get('one') == []) and skills_sat(c['vskills'], c['js']) \
+                and not skills_sat(c['vskills'], c['cand']):
+            part = [k for k in ('all', 'one', 'none')
+                    if not skills_sat(c['vskills'], {k: (c['cand'] or {}).get(k)})]
+            v.append({'class': 'skills-merge-accepts-candidate-unmet-by-source-vehicle-' + '+'.join(part),
+                      'what': 'merge(source %s, candidate %s) = Ok although a vehicle with skills %s meets the source and not the candidate'
+                              % (c['js'], c['cand'], c['vskills'])})
         ok = skills_sat(c['vskills'], c['js'])
         if impl['verdict'] is None and not ok:
             v.append({'class': 'unsound-skills', 'what': 'skills constraint accepts a vehicle %s for a job requiring %s' % (c['vskills'], c['js'])})
@@ -606,6 +736,8 @@ def nontrivial_key(c, impl):
     if 'panic' in impl:
         return None
     mode = c.get('mode', 'eval')
+    if mode == 'e2e':
+        return ('e2e', json.dumps(c['problem'], sort_keys=True)) if 'solution' in impl else None
     if mode != 'eval':
         return (mode, str(sorted((k, str(x)) for k, x in c.items() if k != 'id')))
     lim = c['lim']
@@ -644,6 +776,13 @@ def classify(c, impl):
                     if lim['dur'] is not None and s2[-1][1] - s2[0][1] == lim['dur']:
                         labs.append('accepted-at-duration-limit')
                     break
+    elif mode == 'e2e':
+        if 'solution' in impl:
+            acts = [a for t in impl['solution']['tours'] for st in t['stops'] for a in st['activities']]
+            labs.append('clustered=%s' % any('commute' in a for a in acts))
+            labs.append('unassigned=%d' % len(impl['solution'].get('unassigned') or []))
+        else:
+            labs.append('error')
     elif mode == 'skills':
         labs.append('verdict=%s' % ('ok' if impl['verdict'] is None else 'fail'))
         labs.append('merge=%s' % (impl['merge'] == 1))
